@@ -314,7 +314,11 @@ def _verdict(line, out):
     if olens != lens:
         return False, "not-judged:%s:block-lengths-changed" % name, None
     if cls == "W" and ocrcs != crcs:
-        return False, "not-judged:window:crc-type-changed" + (":accepted" if valid else ""), None
+        if valid:
+            # the literal property is violated here (C05_full_refuted): recorded as a known finding of the BPv7 wire format
+            return True, "window:crc-type-reinterpreted:ACCEPTED", \
+                "corruption accepted: a window over the CRC-type byte re-reads block %d under the other CRC algorithm and it passes crc_valid" % k
+        return False, "not-judged:window:crc-type-changed", None
     if valid:
         return True, name + ":ACCEPTED", "corruption accepted: a %s corruption of block %d decodes to a different bundle that re-encodes to " \
                                          "the received bytes and passes crc_valid" % (name, k)
@@ -323,6 +327,11 @@ def _verdict(line, out):
 
 def oracle(line, out, mode):
     return _verdict(line, out)[2]
+
+
+def known_class(line, out):
+    v = _verdict(line, out)
+    return "crc-type-reinterpretation" if v[1] == "window:crc-type-reinterpreted:ACCEPTED" else None
 
 
 def same(line, io, mo):
